@@ -45,7 +45,7 @@ def csL : Option Value → List (Label × Value)
   | none => []
   | some v => [(.int 7, v)]
 
-theorem typedSeen_pairs (E : List (Label × Value)) (hE : ∀ l ∈ E.map (·.1), l ∈ stdLabels) : ∀ l ∈ typedSeen (pairsToValue E), l ∈ stdLabels := by
+theorem typedSeen_pairs (S : List Label) (E : List (Label × Value)) (hE : ∀ l ∈ E.map (·.1), l ∈ S) : ∀ l ∈ typedSeen (pairsToValue E), l ∈ S := by
   intro l hl
   simp only [typedSeen, pairsToValue, List.mem_filterMap, List.mem_map] at hl
   obtain ⟨p, ⟨q, hq, rfl⟩, hp⟩ := hl
@@ -147,7 +147,7 @@ theorem Header.toValue_entries (alg crit ct kid iv piv cs rest) (ov : Option Val
     simp only [headerFinish]
     rw [restToPairs_ok rest _ _ hr.nodup]
     · simp [pairsToValue]
-    · intro l hl hs; exact hr.nonstd l hl (typedSeen_pairs E hE l hs)
+    · intro l hl hs; exact hr.nonstd l hl (typedSeen_pairs stdLabels E hE l hs)
   have hsub : ∀ l ∈ (typedL alg crit ct kid iv piv).map (·.1), l ∈ stdLabels := by
     intro l hl
     have := (typedL_labels alg crit ct kid iv piv).subset hl
